@@ -14,9 +14,12 @@ they are enumerated on the real code by the harness, not modelled.
 -/
 import XlModel.Lemmas.CalcTotal
 import XlModel.Lemmas.CalcTotalStack
+import XlModel.Lemmas.CalcTotalFn
+import XlModel.CalcFrame
+import XlModel.Lemmas.CalcTotalSize
 
 namespace XlModel.Props.C09
-open XlModel XlModel.CalcTotal XlModel.Lemmas.CalcTotal XlModel.Lemmas.CalcTotalStack
+open XlModel XlModel.CalcTotal XlModel.Lemmas.CalcTotal XlModel.Lemmas.CalcTotalStack XlModel.Lemmas.CalcTotalFn XlModel.Lemmas.CalcTotalSize
 
 /-! ## the facts the model is defined over -/
 
@@ -111,14 +114,68 @@ def witnessArraySep : List Tok :=
 parenthesis" (`SUM(({1,2}))` panicked in `parseToken`; repository fix 6963681). -/
 theorem fixed_array_separator_witness : evalTokens semU witnessArraySep = .ok () := by decide
 
-/-- with functions the machine can still be driven into a panic by token lists efp cannot
-emit (here: a Function Stop inside an open parenthesis): the in-function no-panic claim is
-NOT proved in Lean; it rests on the transcript (model ≡ code on every explored list,
-including all lists of ≤ 3 (quick) / 4 (thorough) tokens over a 17-token alphabet) and on
-the oracle (no efp-derived list panics). -/
+/-- **No panic with function calls, every value semantics, every depth and arity.**  For every
+token list whose function calls and parentheses are properly nested (`nested [] 0`: what a
+tokenizer with a bracket stack emits — a Function Stop with nothing open is tolerated, an
+Argument separator never sits directly inside a parenthesis) and that contains no array
+constant, and for EVERY operand semantics, reference resolver and function library,
+`evalInfixExp` returns a value or an error: every `Peek().(efp.Token)` on `opftStack` /
+`opfStack` / `optStack`, every `Peek().(*list.List)` on `argsStack` and every
+`Pop().(formulaArg)` finds its element.  Invariant (`Lemmas/CalcTotalFn.Inv`): the Function
+tokens on `opft` are, in order, the tokens of `opf`; `len(args) = len(opf)`; the "(" on
+`opft` / `opt` are the open parentheses of the nesting.  It needs `getPriority(function) = 0`
+(fix cc2477f) — before that fix the statement was false. -/
+theorem eval_no_panic_functions {V : Type} (S : Sem V) (toks : List Tok)
+    (hnest : nested [] 0 toks = true)
+    (harr : ∀ t ∈ toks, isFuncStart t = true → (t.val == "ARRAY") = false ∧ (t.val == "ARRAYROW") = false) :
+    evalTokens S toks ≠ .panic :=
+  run_inv S toks {} [] 0 inv_init hnest harr
+
+/-- the nesting hypothesis is necessary: a Function Stop inside an open parenthesis (a list no
+bracket-stack tokenizer emits) panics in the model — and in the code (transcript `ev`). -/
 theorem finding_model_stop_inside_paren_panics :
+    nested [] 0 [fstart "SUM", ⟨"", .subexpr, .start⟩, num "1", fstop, ⟨"", .subexpr, .stop⟩] = false ∧
     evalTokens semU [fstart "SUM", ⟨"", .subexpr, .start⟩, num "1", fstop, ⟨"", .subexpr, .stop⟩] = .panic := by
   decide
+
+/-- tokens efp emits for `{(SUM(1))}` -/
+def witnessArrayParenFn : List Tok :=
+  [fstart "ARRAY", fstart "ARRAYROW", ⟨"", .subexpr, .start⟩, fstart "SUM", num "1", fstop,
+   ⟨"", .subexpr, .stop⟩, fstop, fstop]
+
+/-- **Open finding (code and model agree): the "no array constant" hypothesis of
+`eval_no_panic_functions` is necessary.**  `{(SUM(1))}` — a function call inside a
+parenthesis inside an array constant — is properly nested, yet the array flags make the
+call's Function Stop close the array row instead of the call; `SUM` stays on the function
+stack and the `)` empties `opftStack` (`Peek().(efp.Token)` on nil in `parseToken`).  Found by
+enumerating the model over all nested lists of 5 tokens; reproduced on the real code
+(`CalcCellValue` of `{(SUM(1))}` panics); left open under the fix freeze. -/
+theorem finding_array_paren_function_panics :
+    nested [] 0 witnessArrayParenFn = true ∧ evalTokens semU witnessArrayParenFn = .panic := by decide
+
+/-! ## deep nesting ("deep nesting … in bounded time without panicking": no stack overflow) -/
+
+/-- **Stack heights are linear in the formula length, whatever the nesting depth.**
+`evalInfixExp` does not recurse on the structure of the formula: the model's `run` is the
+token loop (`run_eq_runSt`), and every inner loop (`popLoop`, `closeParen`, `flushToSep`,
+`drain`) recurses structurally on one of the six explicit stacks.  After any prefix of `k`
+tokens — for every value semantics, nesting depth and arity, well-formed or not — the six
+stacks together hold at most `5·k` elements, so each inner loop runs at most `5·k` times and
+the Go call stack stays at a constant number of frames.  (Recursion through cell references
+is bounded by `cycle_cutoff_terminates`; recursion inside formula functions is not modelled.)
+Tied by the worker oracle on 10 000 / 100 000 nested parentheses, unary minus, `%`, nested
+SUM/IF and 10 000-term operator chains (`txt/deep`). -/
+theorem stack_heights_linear {V : Type} (S : Sem V) (toks : List Tok) (st : St V)
+    (h : runSt S {} toks = .ok st) : size st ≤ 5 * toks.length := by
+  have := runSt_size S toks {} st h
+  simpa [size] using this
+
+/-- the evaluation is the token loop followed by the final drain -/
+theorem eval_is_token_loop {V : Type} (S : Sem V) (toks : List Tok) :
+    evalTokens S toks = (match runSt S {} toks with
+      | .ok st => finish S st
+      | .err => .err
+      | .panic => .panic) := run_eq_runSt S toks {}
 
 /-! ## termination on circular references ("in bounded time … circular reference chains of any shape") -/
 
@@ -210,6 +267,46 @@ theorem lazy_answers_constant (expandFails : Bool) (cellAns : Ans) (n : Nat) :
       simp only [List.cons.injEq, true_and]
       exact ih
 
+/-! ## purity ("evaluation never modifies the workbook") for the modelled state -/
+
+/-- **Every write of the evaluator is in the frame.**  Each assignment to a field or element in
+the evaluator's own functions (regenerated: `Facts.C09.evalWrites`) is a write to the per-call
+context, to a local value, to `File.formulaChecked` or to the lazily written `xlsxC.f`; each
+method they call on the workbook objects (`Facts.C09.evalCalls`) is one of the evaluator's
+own functions, a lock, a reader (C04) or `prepareSheetXML` (empty slots).  A new assignment
+or callee in calc.go / cell.go breaks this theorem. -/
+theorem eval_frame_modelled :
+    (∀ w ∈ Facts.C09.evalWrites, (classifyWrite w).isSome = true) ∧
+    (∀ c ∈ Facts.C09.evalCalls, (classifyCall c).isSome = true) := by decide
+
+/-- **`eval_pure`: `Obs (evalState wb c).2 = Obs wb` for the modelled state.**  Whatever sequence
+of framed writes an evaluation performs (flag, lazy `c.f`, materialised empty slots, lazily
+decoded parts, context, locals), what the public getters read is unchanged. -/
+theorem eval_pure {O : Type} (trace : List Write) (wb : WbState O) :
+    (evalState trace wb).obs = wb.obs := by
+  unfold evalState
+  induction trace generalizing wb with
+  | nil => rfl
+  | cons w ws ih =>
+    simp only [List.foldl_cons]
+    rw [ih]
+    cases w <;> rfl
+
+/-- and the internal components only grow (nothing decoded or materialised is dropped) -/
+theorem eval_internal_monotone {O : Type} (trace : List Write) (wb : WbState O) :
+    (wb.checked = true → (evalState trace wb).checked = true) ∧
+    (∀ c ∈ wb.lazyF, c ∈ (evalState trace wb).lazyF) ∧ (∀ c ∈ wb.slots, c ∈ (evalState trace wb).slots) := by
+  unfold evalState
+  induction trace generalizing wb with
+  | nil => exact ⟨id, fun _ h => h, fun _ h => h⟩
+  | cons w ws ih =>
+    simp only [List.foldl_cons]
+    have := ih (applyWrite wb w)
+    refine ⟨fun h => this.1 ?_, fun c h => this.2.1 c ?_, fun c h => this.2.2 c ?_⟩
+    · cases w <;> simp [applyWrite, h]
+    · cases w <;> simp [applyWrite, h]
+    · cases w <;> simp [applyWrite, h]
+
 /-! ## non-vacuity -/
 
 /-- a two-cell cycle A = B + 1, B = A + 1 evaluated at A with M = 0: B is evaluated once,
@@ -223,6 +320,12 @@ def twoCycle : Graph Int where
   blank := 0
 
 theorem two_cycle_value : (calcEntry twoCycle 0 3 0).map (·.1) = some 2 := by decide
+
+/-- the nesting hypothesis is satisfiable by a non-trivial list: `SUM(1,(2+3))*MAX(4)` followed by a stray `)` -/
+theorem nested_example :
+    nested [] 0 [fstart "SUM", num "1", ⟨",", .argument, .nothing⟩, ⟨"", .subexpr, .start⟩, num "2",
+      ⟨"+", .opInfix, .math⟩, num "3", ⟨"", .subexpr, .stop⟩, fstop, ⟨"*", .opInfix, .math⟩, fstart "MAX",
+      num "4", fstop, fstop] = true := by decide
 
 /-- the balanced hypothesis is satisfiable by a non-trivial list: `(1+2)*3` -/
 theorem balanced_example :
